@@ -76,6 +76,27 @@ pub fn generate(kind: &str, seed: u64, run: u64, thorough: bool) -> Scenario {
                 tn.insert(at, bad);
             }
         }
+        // occasionally long lists (repeated documents): error texts must name every failure
+        if er.chance(1, 6) && (tp.len() + tn.len()) > 0 {
+            let n = 9 + er.below(10);
+            while tp.len() + tn.len() < n {
+                if !tp.is_empty() && er.chance(1, 2) {
+                    let x = tp[er.below(tp.len())].clone();
+                    tp.push(x);
+                } else if !tn.is_empty() {
+                    let x = tn[er.below(tn.len())].clone();
+                    tn.push(x);
+                } else {
+                    let x = tp[er.below(tp.len())].clone();
+                    tn.push(x);
+                }
+            }
+        }
+        // the same document in both lists
+        if er.chance(1, 6) && !tp.is_empty() {
+            let x = tp[er.below(tp.len())].clone();
+            tn.push(x);
+        }
         if let Some(m) = yaml.as_mapping_mut() {
             m.insert("true_positives".into(), Yaml::Sequence(tp));
             m.insert("true_negatives".into(), Yaml::Sequence(tn));
